@@ -179,6 +179,9 @@ func (s *Solver) Check() Result {
 		if line == "" {
 			continue
 		}
+		if s.Log != nil {
+			io.WriteString(s.Log, ";; <- "+line+"\n")
+		}
 		if line == "sat" {
 			res = Sat
 			break
@@ -286,6 +289,9 @@ func (s *Solver) Values(ts []*term.T) ([]uint64, error) {
 		}
 	}
 	txt := sb.String()
+	if s.Log != nil {
+		io.WriteString(s.Log, ";; <- "+strings.ReplaceAll(txt, "\n", " ")+"\n")
+	}
 	if strings.Contains(txt, "(error") {
 		return nil, fmt.Errorf("solver: %s", txt)
 	}
